@@ -465,10 +465,13 @@ def r_cancel_tiles(rule, root=None):
         else:
             rule.bad("cancel|origin", "render_tiles produces Err(()) under `%s`; an abort may only originate from is_cancelled()" % " && ".join(conds), A.where(fn, e))
     t = txt(fn["body"])
-    if t.count(".collect::<Result<Vec<_>,()>>().ok()") == 2:
-        rule.ok("any aborted tile turns the whole result into None (no partial image)")
+    cols = [c for c in A.find(fn["body"], "MethodCall") if c["method"] == "collect" and "Result<Vec<_>,()>" in (c.get("turbofish") or "").replace(" ", "")]
+    direct = [c for c in cols if A.strip(c["recv"]).get("k") == "MethodCall" and A.strip(c["recv"])["method"] in ("map", "map_init")]
+    if len(cols) == 2 and len(direct) == 2 and t.count(".collect::<Result<Vec<_>,()>>().ok()") == 2:
+        rule.ok("any aborted tile turns the whole result into None (no partial image): the per-tile Results are collected directly")
     else:
-        rule.bad("cancel|collect", "tile results must be collected as Result<Vec<_>, ()> and turned into an Option: a partial image must never be returned", A.where(fn))
+        bad = [c for c in cols if c not in direct]
+        rule.bad("cancel|collect", "tile results must be collected directly from the per-tile map as Result<Vec<_>, ()> and turned into an Option; an adapter in between (`%s`) can swallow the Err and let a partial image through" % (A.strip(bad[0]["recv"])["method"] if bad and A.strip(bad[0]["recv"]).get("k") == "MethodCall" else "?"), A.where(fn, bad[0] if bad else None))
     polls = [c for c in A.find(fn["body"], "MethodCall") if c["method"] == "is_cancelled"]
     if len(polls) == 2 and all(p for p in polls):
         rule.ok("the token is polled once per tile on both the serial and the pooled path")
@@ -490,3 +493,32 @@ def r_cancel_tiles(rule, root=None):
             rule.ok("%s render returns None when render_tiles was cancelled" % label)
         else:
             rule.bad("cancel|%s" % label, "%s render must propagate a cancelled render_tiles as None" % label, A.where(f))
+
+
+def r_effect_siblings(rule, root=None):
+    """Image::apply_effect: the pooled and the serial branch chunk the pixel buffer identically"""
+    fn = A.find_fn(LIB, "apply_effect", root=root)
+    ifs = [i for i in A.find(fn["body"], "If") if "threads" in txt(i["cond"])]
+    if len(ifs) != 1:
+        rule.lost("`if let Some(threads) = threads` in Image::apply_effect")
+        return
+    par = [c for c in A.find(ifs[0]["then"], "MethodCall") if c["method"] == "par_chunks_mut"]
+    ser = [c for c in A.find(ifs[0]["else"], "MethodCall") if c["method"] == "chunks_mut"]
+    if len(par) != 1 or len(ser) != 1:
+        rule.lost("par_chunks_mut / chunks_mut in Image::apply_effect")
+        return
+    a, b = txt(par[0]["args"][0]), txt(ser[0]["args"][0])
+    if a == b == "(self.size.width()asusize)":
+        rule.ok("apply_effect: both branches process rows of `width` pixels", file=LIB, line=fn["ln"])
+    else:
+        rule.bad("effect|chunks", "apply_effect chunks rows by `%s` with a pool and by `%s` without: the two must agree (and be the image width)" % (a, b), A.where(fn, ser[0]))
+    tp = txt(ifs[0]["then"]).replace("par_chunks_mut", "chunks_mut")
+    te = txt(ifs[0]["else"])
+    if ".enumerate().for_each(r)" in tp and ".enumerate().for_each(r)" in te:
+        rule.ok("apply_effect: both branches feed (row index, row) to the same closure")
+    else:
+        rule.bad("effect|closure", "both branches of apply_effect must feed enumerate()d rows to the same closure", A.where(fn))
+    if "letr=|(y,row):(usize,&mut[P])|{for(x,v)inrow.iter_mut().enumerate(){*v=f(x,y);}};" in txt(fn["body"]):
+        rule.ok("apply_effect: pixel (x, y) receives f(x, y)")
+    else:
+        rule.bad("effect|xy", "apply_effect must store f(x, y) at column x of row y", A.where(fn))
